@@ -250,12 +250,24 @@ def run(chk, which="C11"):
                     if exact_fr is None:
                         # Decimal -> Fraction (exact conversion of the 130-digit approximation)
                         exact_fr = Fraction(exact) if abs(exact.adjusted()) < 6000 else None
+                    # float/double are evaluated in long double, so their whole subnormal range is computed accurately:
+                    # a value >= denorm_min must be representable, one below denorm_min/2 rounds to zero and must not be;
+                    # in between (rounds up to denorm_min) nothing is demanded.  long double has no wider type behind it:
+                    # below its smallest normal value representable_in is not judged (see assumptions).
+                    must_zero = False
                     if exact_fr is None:
                         too_big, too_small = exact.adjusted() > 0, exact.adjusted() < 0
+                        must_zero = too_small and tname != "long double" and exact.adjusted() < -400
                     else:
-                        # below the smallest *normal* value representable_in is not judged (see assumptions)
-                        too_big, too_small = exact_fr > mx * (1 + band), exact_fr < Fraction(2) ** (dmin + dg - 1)
+                        lo_judge = Fraction(2) ** dmin if tname != "long double" else Fraction(2) ** (dmin + dg - 1)
+                        too_big, too_small = exact_fr > mx * (1 + band), exact_fr < lo_judge
+                        must_zero = tname != "long double" and exact_fr < Fraction(2) ** (dmin - 1) * (1 - band)
                     in_range = (not too_big and not too_small) and (exact_fr is not None and exact_fr < mx * (1 - band))
+                    if must_zero and rep:
+                        chk.violation(f"C11|representable_in|{key}", msg=f"representable_in<{tname}>({expr[:250]}) is true but the exact value ~{exact:.4E} is below half the smallest positive {tname} (it can only be stored as zero)")
+                    if must_zero:
+                        reject_probes.append({"id": pid, "expect": "reject", "T": tname, "expr": expr, "text": f"void vf_p{pid}() {{ auto v = au::get_value<{tname}>({expr}); (void)v; }}"})
+                        pid += 1
                     if too_big and rep:
                         chk.violation(f"C11|representable_in|{key}", msg=f"representable_in<{tname}>({expr[:250]}) is true but the exact value exceeds the type's maximum")
                     if in_range and not rep:
@@ -311,6 +323,6 @@ def run(chk, which="C11"):
                        "FLT/DBL/LDBL max and min, roots, pi powers, plus seeded random products of rational prime/pi powers; each is reified for 11 types (representable_in, guarded get_value, classification); "
                        "Python recomputes with exact rationals / 130-digit decimals; not-representable cases become get_value reject probes; distinct_nontrivial = distinct (magnitude, type) pairs")
     chk.notes.update({"magnitudes": len(mags), "reject_probes": nrej, "translation_units": n_tu})
-    chk.assumptions += ["floating tolerance: 2 ulp (float, double), 16 ulp (long double; relative 2^-50 when the sum of |exponents| exceeds 64); representable_in is not judged for values below the type's smallest normal value, "
+    chk.assumptions += ["floating tolerance: 2 ulp (float, double), 16 ulp (long double; relative 2^-50 when the sum of |exponents| exceeds 64); representable_in is judged down to denorm_min for float/double (must be false below denorm_min/2), and for long double not below its smallest normal value, "
                         "but a 'representable' value must be strictly positive", "pi is an independent 150-digit literal"]
     return chk
